@@ -1,4 +1,5 @@
 import Invoke.Model.Val
+import Invoke.Model.Env
 import Invoke.Generated.Config
 /-! The nine configuration levels of `invoke.config.Config` and the merged view.
 
@@ -118,5 +119,12 @@ def LoadSt.loadFile (c : LoadSt) (l : Level) (fs : String → Option KVs) : Load
 def LoadSt.loads (c : LoadSt) : List (Level × KVs) → LoadSt
   | [] => c
   | (l, d) :: rest => (c.load l d).loads rest
+
+/-- `load_shell_env`: merge what is loaded so far, crawl THAT view for the settings the environment may
+    override, store the result as the env level and merge again -/
+def LoadSt.loadShellEnv (c : LoadSt) (pre : List Char) (environ : Environ) : Except CErr LoadSt :=
+  match loadEnv pre environ (view c.slots) with
+  | .error e => .error e
+  | .ok ev => .ok (c.load .env ev)
 
 end Inv
